@@ -29,6 +29,8 @@ def variants(sc, b):
     if sessprop.sampled(sc, b, 5) and not any(w != 'ok' for w in sc['conns'][0].get('writes', [])):
         # the same stream from an RFC 7692 peer (compressed data messages, Pings between their fragments)
         out.append(('deflate', sessprop.via_deflate(sc, 'rand')))
+    if sessprop.sampled(sc, b, 3) and not sc.get('react'):
+        out.append(('second-connection', sessprop.with_second_connection(sc)))
     return out
 
 
